@@ -1,11 +1,28 @@
 #!/bin/bash
-# Build the framework from files on disk only (offline): Coq development + extracted model binary.
-set -e
+# Build the framework from files on disk only (offline): Coq development + extracted model binaries.
+# Tolerant by design: a proof that no longer checks (e.g. because the tables regenerated from the tree under
+# test changed) must be reported by the property's own check as a VIOLATION, not abort the build of everything
+# else.  So: make -k; a second, low-parallelism pass recovers from out-of-memory kills of single coqc jobs.
 cd "$(dirname "$0")"
 export PYTEAL_REPO="${PYTEAL_REPO:-/repo}"
 if [ -f harness/translate.py ]; then
-  PYTHONPATH="$PYTEAL_REPO" PYTHONHASHSEED=0 /venv/bin/python harness/translate.py
+  PYTHONPATH="$PYTEAL_REPO" PYTHONHASHSEED=0 /venv/bin/python harness/translate.py || echo "setup: translator failed (checks will report it)"
 fi
-PYTHONPATH=harness /venv/bin/python -c "import common,sys; ok,out=common.coq_make(tag='all'); print(out[-3000:]); sys.exit(0 if ok else 1)"
-for e in coq/Extract/Extract*.v; do n=$(basename $e .v); n=${n#Extract}; n=${n#_}; ( cd ocaml && ./build.sh ${n:-main} ); done
-echo "setup ok"
+[ -f harness/c04_translate.py ] && { PYTHONPATH="$PYTEAL_REPO" PYTHONHASHSEED=0 /venv/bin/python harness/c04_translate.py || echo "setup: c04 translator failed (C04 will report it)"; }
+PYTHONPATH=harness /venv/bin/python - <<'PY'
+import common, sys
+ok, out = common.coq_make(tag='all', keep_going=True)
+if not ok:
+    print(out[-2500:])
+    print("setup: first pass incomplete; second pass with -j3")
+    ok, out = common.coq_make(tag='all', keep_going=True, jobs=3)
+print(out[-1500:])
+print("setup: coq build %s" % ("complete" if ok else "INCOMPLETE (affected checks will report their own proof failure)"))
+PY
+rc=0
+for e in coq/Extract/Extract*.v; do
+  n=$(basename $e .v); n=${n#Extract}; n=${n#_}
+  ( cd ocaml && ./build.sh ${n:-main} ) || { echo "setup: binary ${n:-main} failed"; [ -z "$n" ] && rc=1; }
+done
+[ $rc = 0 ] && echo "setup ok"
+exit $rc
